@@ -65,6 +65,7 @@ func (s *syncStore[H]) Append(ctx context.Context, headers ...H) error {
 	//	However, Syncer has yet to be refactored to not assume those invariants and until then
 	//	this method is a shim that allows using store with old assumptions.
 	//  To be reworked by bsync.
+	var newHead *H
 	if headers[0].Height() >= head.Height() {
 		for _, h := range headers {
 			if h.Height() != head.Height()+1 {
@@ -77,12 +78,25 @@ func (s *syncStore[H]) Append(ctx context.Context, headers ...H) error {
 			head = h
 		}
 
-		s.head.Store(&head)
+		newHead = &head
 	}
 
 	simYield("sync:syncStore.Append:before-store")
 	if err := s.Store.Append(ctx, headers...); err != nil {
 		return err
+	}
+
+	// publish the new head only once the Store has accepted the headers: if the Append fails
+	// (e.g. the context ends while the Store's write queue is full) the headers are not stored,
+	// and a head that ran ahead would let the next headers in as adjacent, leaving a gap behind
+	for newHead != nil {
+		cur := s.head.Load()
+		if cur != nil && (*cur).Height() >= (*newHead).Height() {
+			break
+		}
+		if s.head.CompareAndSwap(cur, newHead) {
+			break
+		}
 	}
 
 	return nil
